@@ -10,6 +10,8 @@ verus! {
 
 global size_of usize == 8;
 
+//@INCLUDE prelude/std_extra.rs
+
 // ------------------------------------------------------------------ std items vstd lacks (ASSUMED: an RwLock is a lock)
 #[verifier::external_type_specification]
 #[verifier::external_body]
